@@ -3,7 +3,9 @@
 tier="$1"; shift
 for id in C01 C02 C03 C04 C05 C06 C07 C08 C09 C10 C11 C12 C13 C14 C15 C16 C17 C18 C19 C20; do
   for m in "$@"; do
-    [ -f /tmp/wt/$id-out/$m.diff ] || continue
+    [ -f /tmp/wt/$id-out/$m.diff ] && [ -f /tmp/wt/$id-out/$m.md ] && ls /tmp/wt/$id-out/${m}_demo.* >/dev/null 2>&1 || continue
+    # deliverables still being written? (anything touched in the last two minutes)
+    [ -z "$(find /tmp/wt/$id-out -name "$m*" -mmin -2)" ] || continue
     [ -d /verif/seeded/$id-$m ] && continue
     if /verif/tools/confirm_seed.sh $id $m; then
       /verif/tools/store_seed.sh $id $m >/dev/null
